@@ -406,12 +406,6 @@ Inductive sub (n : rvalue) : rvalue -> Prop :=
 | sub_refl : sub n n
 | sub_step c v : child c v -> sub n c -> sub n v.
 
-Definition id_of (v : rvalue) : option N :=
-  match v with
-  | VArr id _ | VHash id _ | VSens id _ | VBin id _ _ | VRich id _ _ _ _ | VObj id _ _ _ _ => Some id
-  | _ => None
-  end.
-
 Fixpoint rsize (v : rvalue) : nat :=
   match v with
   | VArr _ vs => S ((fix go (l : list rvalue) := match l with [] => 0 | x :: l' => rsize x + go l' end) vs)
@@ -744,3 +738,103 @@ Definition wf_rich {payload} (x : @rvalue payload) : Prop := exists m, consisten
 Theorem collect_serialize {payload} (to_s : str -> payload -> str) o c x :
   wf_rich x -> collect (serialize to_s o c x) = Ok (image to_s (env_of o c) x).
 Proof. intros [m Hm]. unfold serialize. now apply (collect_to_data to_s (env_of o c) m). Qed.
+
+(* ------------------------------------------------------------------------------------------------ *)
+(* a checker for wf_rich: pairwise "same tag => same tree" over the nodes (run on every correspondence case) *)
+
+Section Checker.
+Context {payload : Type}.
+Notation rvalue := (@rvalue payload).
+Variable eqb : rvalue -> rvalue -> bool.
+Hypothesis eqb_sound : forall a b, eqb a b = true -> a = b.
+
+Lemma nodes_self (v : rvalue) : In v (nodes v).
+Proof. destruct v; cbn [nodes]; now left. Qed.
+
+Lemma nodes_child (c v : rvalue) : child c v -> forall n, In n (nodes c) -> In n (nodes v).
+Proof.
+  intros Hc n Hn.
+  destruct Hc as [id vs x Hin|id es en Hin|id es en Hin|id x|id ty hint attrs disp|id ty hint attrs disp a Hin];
+    cbn [nodes]; right.
+  - apply in_flat_map. now exists x.
+  - apply in_flat_map. exists en. split; [assumption|]. apply in_or_app. now left.
+  - apply in_flat_map. exists en. split; [assumption|]. apply in_or_app. now right.
+  - assumption.
+  - apply in_or_app. now left.
+  - apply in_or_app. right. apply in_flat_map. now exists a.
+Qed.
+
+Lemma sub_nodes (n v : rvalue) : sub n v -> In n (nodes v).
+Proof.
+  induction 1 as [|c v Hc Hs IH]; [apply nodes_self|]. now apply (nodes_child c v).
+Qed.
+
+Definition has_tag (i : N) (n : rvalue) : bool := match id_of n with Some j => N.eqb i j | None => false end.
+Definition pick (x : rvalue) (i : N) : rvalue :=
+  match find (has_tag i) (nodes x) with Some n => n | None => VUndef end.
+
+Theorem wf_richb_sound x : wf_richb eqb x = true -> wf_rich x.
+Proof.
+  intros H. exists (pick x). intros n Hn id Hid. unfold pick.
+  pose proof (sub_nodes n x Hn) as Hin.
+  destruct (find (has_tag id) (nodes x)) as [n'|] eqn:F.
+  - apply find_some in F as [Hin' Ht]. unfold has_tag in Ht.
+    destruct (id_of n') as [j|] eqn:Hj; [|discriminate]. apply N.eqb_eq in Ht. subst j.
+    unfold wf_richb in H. rewrite forallb_forall in H. specialize (H n' Hin').
+    rewrite forallb_forall in H. specialize (H n Hin). rewrite Hj, Hid, N.eqb_refl in H.
+    now apply eqb_sound.
+  - pose proof (find_none _ _ F n Hin) as Hf. unfold has_tag in Hf. rewrite Hid, N.eqb_refl in Hf. discriminate.
+Qed.
+
+End Checker.
+
+(* the structural equality test is sound *)
+Section Eqb.
+Context {payload : Type}.
+Notation rvalue := (@rvalue payload).
+Variable peqb : payload -> payload -> bool.
+Hypothesis peqb_sound : forall p q, peqb p q = true -> p = q.
+
+Ltac split_andb :=
+  repeat match goal with
+         | H : _ && _ = true |- _ => apply andb_prop in H; destruct H
+         end.
+
+Theorem rvalue_eqb_sound (a : rvalue) : forall b, rvalue_eqb peqb a b = true -> a = b.
+Proof.
+  induction a as [ | x | x | x | x | | i xs IH | i xs IH | i x IH | i p d | i tn l p d
+                   | i ty h ats d IHty IHats ] using rvalue_ind';
+    intros b H; destruct b; cbn [rvalue_eqb] in H; try discriminate.
+  - reflexivity.
+  - f_equal. now apply Bool.eqb_prop.
+  - f_equal. now apply Z.eqb_eq.
+  - f_equal. now apply Z.eqb_eq.
+  - f_equal. now apply str_eqb_eq.
+  - reflexivity.
+  - apply andb_prop in H as [Hi Hl]. f_equal; [now apply N.eqb_eq|].
+    revert vs Hl. induction IH as [|x xs Hx _ IHl]; intros [|y ys] Hl; try discriminate; [reflexivity|].
+    apply andb_prop in Hl as [H1 H2]. f_equal; [now apply Hx|now apply IHl].
+  - apply andb_prop in H as [Hi Hl]. f_equal; [now apply N.eqb_eq|].
+    revert es Hl. induction IH as [|[[k kd] x] xs [Hk Hx] _ IHl]; intros [|[[k2 kd2] y] ys] Hl; try discriminate;
+      [reflexivity|].
+    split_andb. cbn [fst snd] in *. f_equal; [|now apply IHl].
+    f_equal; [f_equal; [now apply Hk|now apply str_eqb_eq]|now apply Hx].
+  - apply andb_prop in H as [Hi Hx]. f_equal; [now apply N.eqb_eq|now apply IH].
+  - split_andb. f_equal; [now apply N.eqb_eq|now apply peqb_sound|now apply str_eqb_eq].
+  - split_andb.
+    f_equal; [now apply N.eqb_eq|now apply str_eqb_eq|now apply Bool.eqb_prop|now apply peqb_sound|now apply str_eqb_eq].
+  - apply andb_prop in H as [H Hd]. apply andb_prop in H as [H Hl]. apply andb_prop in H as [H Hh].
+    apply andb_prop in H as [Hi Hty].
+    f_equal; [now apply N.eqb_eq|now apply IHty|now apply Nat.eqb_eq| |now apply str_eqb_eq].
+    revert attrs Hl. induction IHats as [|[k x] xs Hx _ IHl]; intros [|[k2 y] ys] Hl; try discriminate;
+      [reflexivity|].
+    split_andb. cbn [snd] in *. f_equal; [|now apply IHl]. f_equal; [now apply str_eqb_eq|now apply Hx].
+Qed.
+
+End Eqb.
+
+(* with string payloads (the correspondence cases): the checker decides a sufficient condition of wf_rich *)
+Theorem wf_richb_str_sound (x : @rvalue str) : wf_richb (rvalue_eqb str_eqb) x = true -> wf_rich x.
+Proof.
+  apply wf_richb_sound. apply rvalue_eqb_sound. intros p q. apply str_eqb_eq.
+Qed.
